@@ -1009,6 +1009,29 @@ class Interp:
         else:
             self.exec_block(s.orelse)
 
+    def st_Match(self, s):
+        """match <subject>: with value patterns (case CONST: / case A | B:), the wildcard and guards; the first matching case runs"""
+        subj = self.ev(s.subject)
+
+        def pat(p):
+            if isinstance(p, ast.MatchValue):
+                return self.eq(subj, self.ev(p.value))
+            if isinstance(p, ast.MatchSingleton):
+                return self.eq(subj, self.ev(ast.Constant(value=p.value)))
+            if isinstance(p, ast.MatchOr):
+                return z3.Or(*[pat(q) for q in p.patterns])
+            if isinstance(p, ast.MatchAs) and p.pattern is None and p.name is None:
+                return z3.BoolVal(True)
+            raise OutOfSubset(f"match pattern {type(p).__name__}")
+
+        for case in s.cases:
+            c = pat(case.pattern)
+            if case.guard is not None:
+                c = z3.And(c, self.ev_cond(case.guard))
+            if self.branch(c):
+                self.exec_block(case.body)
+                return
+
     def ev_cond(self, node):
         v = self.ev(node)
         return self.truthy(v)
